@@ -255,7 +255,9 @@ func (mv *MessageView) BodyReader(opts ...Option) (io.ReadCloser, error) {
 	br := bytes.NewReader(mv.message)
 	r = io.NewSectionReader(br, mv.bodyoffset, mv.traileroffset-mv.bodyoffset)
 
-	if !conf.decode {
+	if !conf.decode || mv.traileroffset == mv.bodyoffset {
+		// Nothing to decode: either decoding was not asked for, or no body was captured
+		// (it was skipped or the message has none).
 		return ioutil.NopCloser(r), nil
 	}
 
